@@ -33,4 +33,46 @@ CLAIMED = {
     "C16": k("Decoded RadioStatus structurally equal to the SOTDMA/ITDMA reference decode of bits 149..168 for all 2^19 (2^20) states; type 9 is a recorded known finding guarded by a residual harness.",
              "Kani/CBMC: structural equality with comm-state reference", "DESIGN.md C16"),
 }
+MNOTE = ("Trusted: the own MIR parser + symbolic executor (lib/mir, fails closed on anything outside its subset), its summary table for core/alloc/heapless callees, "
+         "for the text layer the nom semantics table, z3 (+ kissat on bit-blasted queries), the nightly MIR dump. Guards: translator validation on concrete "
+         "corpora through the real parser on every run, native replay of every solver model before it is reported, path-exhaustiveness check. Bounds in the evidence.")
+
+
+def m(text, technique, ref, engine="M"):
+    return {"engine": engine, "text": text, "note": MNOTE if engine == "M" else MNOTE + " " + KNOTE, "technique": technique, "design_ref": ref}
+
+
+CLAIMED.update({
+    "C01": m("Totality as the conjunction of bounded panic-freedom results: Kani's built-in checks over arbitrary payloads for unarmor and all 21 message parsers in the "
+             "configurations (incl. the heapless capacity edges), and engine M's reachability queries for every MIR assert / unreachable edge of AisParser::parse "
+             "(from an arbitrary parser state, three configurations) and of the sentence parser (any line up to N bytes). Termination: all encoded bodies are loop-free; "
+             "Kani's unwinding assertions bound the payload loops.", "Kani/CBMC built-in checks + MIR->SMT panic-edge reachability (z3)", "DESIGN.md C01", "K+M"),
+    "C02": m("The sentence parser and check_checksum executed from MIR on a fully symbolic line: accepted => XOR(up to the first '*') == hex value after it (<= 0xFF); checksum "
+             "errors carry (transmitted, computed); well-formed + mismatch => checksum error; match => never a checksum error; plus the state-layer gate (error returned before "
+             "any state write, any state).", "MIR->QF_BV symbolic execution of the sentence parser vs. checksum rule (z3/kissat)", "DESIGN.md C02"),
+    "C05": m("Inductive one-step queries on the MIR-derived transition relation: a first fragment from ANY parser state opens the group; fragment k+1 after k (any k < 255) yields "
+             "Incomplete with its own fields, or - for the last - exactly the unfragmented result for the concatenated payload (same uninterpreted unarmor/parse terms); "
+             "rejected / unfragmented lines leave the state unchanged; From<AisFragments> conversions executed symbolically.", "MIR->SMT transition relation, inductive queries (z3 sequences)", "DESIGN.md C05"),
+    "C06": m("Bounded histories from a fresh parser against the specification's group monitor (every model replayed on the real library) + an inductive invariant linking parser "
+             "state and monitor that makes the claim independent of history length.", "MIR->SMT transition relation, BMC + inductive invariant (z3)", "DESIGN.md C06"),
+    "C07": m("Text layer: every field of the accepted sentence equals an independent field extractor over the symbolic line (talker table, report type, numbers with leading zeros, "
+             "optional id, channel = first byte, fill, payload slice). State layer: decode flag changes only `message`.", "MIR->QF_BV sentence parser vs. field extractor + MIR->SMT relation (z3/kissat)", "DESIGN.md C07"),
+    "C08": m("Two-sided differential between the MIR-derived acceptance condition of the sentence parser and a reference grammar written from the property text, for every byte "
+             "string up to N bytes; plus the layer-T postconditions the state layer assumes.", "MIR->QF_BV sentence parser vs. reference grammar, both directions (z3/kissat)", "DESIGN.md C08"),
+    "C09": m("The dispatcher's MIR executed for a symbolic 6-bit type with nondeterministic decoders: Ok(variant) only with the variant M.1371 names, carrying its own decoder's value; "
+             "unsupported values and the empty payload are errors. Kani leaves: message_type(d) = d[0] >> 2 and every struct's own type field = first six bits.",
+             "MIR->SMT dispatcher table check (z3) + Kani leaves", "DESIGN.md C09", "K+M"),
+    "C17": m("One arbitrary step from an arbitrary parser state: lines rejected for form / checksum / sequencing / capacity and unfragmented sentences leave all three state fields "
+             "unchanged (hence removing such a line changes nothing later, any history length); two-run bounded search for an observable, replayable difference when the one-step query fails; "
+             "instance independence from the MIR (only *self, arguments, locals) + source scan.", "MIR->SMT transition relation, one-step metamorphic query + two-run BMC (z3)", "DESIGN.md C17"),
+    "C18": m("Relation between runs: the same Kani harnesses against one configuration-independent oracle in std / alloc / no-alloc (verdicts must agree), z3 miters between the "
+             "MIR-derived transition relations of the three builds, and the capacity edges (119/120 binary bytes, 20/21 characters, 384 reassembled bytes) as errors.",
+             "three-configuration Kani runs + MIR->SMT miters between configurations (z3)", "DESIGN.md C18", "K+M"),
+    "C19": m("Query on the MIR-derived sentence parser: sentence.message_type vs the 6-bit value of the first payload character. On the unchanged tree this is SAT for 62 of 64 characters "
+             "(recorded known finding, the repair would break four pinned tests); a residual query pins the known behaviour exactly (first byte >> 2) so that any other deviation is reported.",
+             "MIR->QF_BV sentence parser query with residual for the known finding (z3) + Kani leaf", "DESIGN.md C19", "K+M"),
+    "C20": m("The binary's MIR (main, its closures, parse_nmea_line) executed with nondeterministic environment stubs: no panic edge for any line content / parser outcome, exactly one "
+             "stdout record per Complete line, one stderr record per rejected line, none for Incomplete, in order; counter-examples piped into the real binary.",
+             "MIR->SMT symbolic execution of the binary with environment stubs (z3), replay through a pipe", "DESIGN.md C20"),
+})
 NOT_APPLICABLE = {}
